@@ -5,3 +5,10 @@ from bloqade.shuttle.prelude import tweezer
 def assert_sorted(indices):
     for i in range(1, len(indices)):
         assert indices[i - 1] < indices[i], "Indices must be sorted in ascending order."
+
+
+@tweezer
+def assert_in_range(indices, size):
+    for i in range(len(indices)):
+        assert indices[i] >= 0, "Indices must not be negative."
+        assert indices[i] < size, "Indices must be smaller than the number of traps."
